@@ -194,7 +194,8 @@ def run_unit(name, scratch, support_dir, tier, seed, rlimit=30, extra_flags=()):
         if d.get('message', '').startswith('aborting due to'): continue
         ur.errors.append(d)
     if j is None or vr.get('encountered-vir-error') or (vr.get('encountered-error') and not vr.get('errors') and not ur.errors):
-        ur.fatal = 'verus produced no result for unit %s (rc=%d):\n%s' % (name, rc, err[-4000:])
+        first = next((d.get('rendered') or d.get('message') for d in ur.errors), None) or err[-3000:]
+        ur.fatal = 'verus rejected the spliced text of unit %s (rc=%d): %s' % (name, rc, first.replace('\n', ' | ')[:1500])
     if j is None and not ur.errors:
         ur.fatal = 'verus failed for unit %s (rc=%d):\n%s' % (name, rc, err[-4000:])
     return ur
@@ -264,7 +265,10 @@ def attribute(ur, unit_files_prefix=''):
             obname = None
             if fn and fn in fnprops:
                 fi = fnprops[fn]
-                props |= set(fi.get('implicit') or fi.get('props') or [])
+                if inblk:      # an untagged helper assertion inside an inserted proof block: it supports all of the fn's clauses
+                    props |= set(fi.get('props') or [])
+                else:          # an implicit obligation in the original code: callee precondition, overflow, bounds, unreachable panic
+                    props |= set(fi.get('implicit') if fi.get('implicit') is not None else (fi.get('props') or []))
         msg = d.get('message', '')
         where = ''
         for s in spans:
